@@ -304,3 +304,46 @@ package retriever
 //@ func addActionCounts(target map[string]int, source map[string]int)
 //@   opaque
 //@   modifies everything
+
+// C20 kernel, part 4: the encrypted archive reader. Frames are bound to their position and type: the additional data
+// handed to the AEAD is archiveFrameAAD(header hash, index of THIS frame, type byte just read) (aadTriple names it;
+// lastOpened[recipient] records what the last Open call was given), the frame index advances by exactly one per opened
+// frame, and the stream is only declared final after the type byte said so AND the underlying reader reported end of
+// stream without yielding another byte. What the AEAD does with the additional data is a cryptographic assumption.
+//@ import hpke "crypto/hpke"
+//@ ghost comp lastOpened int
+//@ ghost comp aadOf int
+//@ pure func aadTriple(headerHash int, frameIndex uint64, frameType byte) int
+//@ func archiveFrameAAD(headerHash [32]byte, frameIndex uint64, frameType byte) []byte
+//@   opaque
+//@   modifies aadOf[0]
+//@   ensures result != nil && fresh(result.arr) && aadOf[result.arr] == aadTriple(headerHash, frameIndex, frameType)
+//@ extern func (r *hpke.Recipient) Open(aad []byte, ciphertext []byte) ([]byte, error)
+//@   requires r != nil
+//@   modifies lastOpened[r]
+//@   ensures lastOpened[r] == aadOf[aad.arr]
+
+//@ func requireEncryptedArchiveEOF(reader io.Reader) error
+//@   requires reader != nil
+//@   modifies readerConsumed[reader], readerEnded[reader]
+//@   nosafety
+//@   ensures atEnd: result == nil ==> readerEnded[reader] && readerConsumed[reader] == old(readerConsumed[reader])
+//@   ensures notEOF: result != io.EOF
+
+//@ func (s *encryptedArchiveReader) readNextFrame() error
+//@   requires s != nil && s.reader != nil && s.recipient != nil
+//@   modifies s.frameIndex, s.final, s.plaintext, readerConsumed[s.reader], readerEnded[s.reader], lastOpened[s.recipient], all(ghost:g.aadOf)
+//@   nosafety
+//@   ensures advanced: result == nil ==> s.frameIndex == old(s.frameIndex) + 1
+//@   ensures bound: result == nil ==> (exists ft byte :: {:pattern aadTriple(s.headerHash, old(s.frameIndex), ft)} lastOpened[s.recipient] == aadTriple(s.headerHash, old(s.frameIndex), ft) && (s.final && !old(s.final) ==> ft == encryptedArchiveFrameFinal) && (ft == encryptedArchiveFrameFinal ==> s.final))
+//@   ensures finalMeansEnd: s.final && !old(s.final) ==> result == nil && readerEnded[s.reader]
+//@   ensures index: s.frameIndex == old(s.frameIndex) || s.frameIndex == old(s.frameIndex) + 1
+//@   ensures neverUnfinal: old(s.final) ==> s.final
+//@   ensures notEOF: result != io.EOF
+
+//@ func (s *encryptedArchiveReader) Read(p []byte) (int, error)
+//@   requires s != nil && s.reader != nil && s.recipient != nil
+//@   nosafety
+//@   ensures eofOnlyWhenFinal: result.1 != nil && result.1 == io.EOF ==> s.final
+//@   loop 0
+//@     invariant s.reader == old(s.reader) && s.recipient == old(s.recipient) && s.reader != nil && s.recipient != nil
